@@ -307,7 +307,8 @@ Section SDeep.
     | Rep _, TMsg tm =>
       exists l, rep_len s = Some l /\ len_le l (10 * q) = true /\
                 (l = [] \/ child_ok_container vr o ann r tm = true) /\
-                Forall (fun e => is_msgv e = true /\ rec 1 (IField (a_iface fa)) tm e) l
+                Forall (fun e => is_msgv e = true /\ rec 1 (IField (a_iface fa)) tm e) l /\
+                (s = VList [] -> min_len o = 0)
     | Member _, TScalar k => s = VNil \/ exists e, s = VSome e /\ rg_scalar vr o k (a_enum fa) e = true
     | Member _, TMsg tm =>
       s = VNil \/ exists e, s = VSome e /\ is_msgv e = true /\ child_ok_singular o ann r tm = true /\ rec q (IField (a_iface fa)) tm e
@@ -437,13 +438,14 @@ Section Sound.
     - splitb. destruct (rep_len s) as [l|] eqn:El; [|discriminate]. exists l.
       destruct (child_ok_container vr o ann r tm) eqn:Ec.
       + destruct l as [|e l].
-        * repeat split; auto using len_le_nil.
-        * splitb. split; [reflexivity|]. split; [assumption|]. split; [right; reflexivity|].
+        * repeat split; auto using len_le_nil. intros ->. unfold rep_exact_ok in H. cbn in H. rewrite orb_false_r in H. apply N.eqb_eq. exact H.
+        * splitb. split; [reflexivity|]. split; [assumption|]. split; [right; reflexivity|]. split; [|intros ->; discriminate].
           destruct s; cbn [rep_len] in El; try discriminate. injection El as ->.
           unfold child_ok_container in Ec. apply andb_true_iff in Ec. destruct Ec as [E2 _]. rewrite E2 in Hd.
           apply forallb_Forall in H1. rewrite Forall_forall in *. intros x Hx. specialize (Hd x Hx). specialize (H1 x Hx).
           split; [exact H1|]. destruct x; try discriminate. exact Hd.
       + cbn [v_list_truncate repaired] in H0. destruct l; [|discriminate]. repeat split; auto using len_le_nil.
+        intros ->. unfold rep_exact_ok in H. cbn in H. rewrite orb_false_r in H. apply N.eqb_eq. exact H.
     - destruct s; try discriminate; [left; reflexivity|]. right. eexists. split; [reflexivity|exact Hd].
     - destruct s; try discriminate; [left; reflexivity|]. destruct s; try discriminate. right. eexists. repeat split; auto.
     - destruct (map_kvs s) as [kvs|] eqn:Ek; [|discriminate]. splitb. exists kvs. repeat split; auto.
@@ -478,7 +480,7 @@ Section Sound.
   Proof.
     unfold cslot, default_slot. destruct (f_shape f); destruct (f_ty f) as [k|tm]; auto.
     - exists []. repeat split; auto using len_le_nil.
-    - exists []. repeat split; auto using len_le_nil.
+    - exists []. repeat split; auto using len_le_nil. discriminate.
     - exists []. repeat split; auto using len_le_nil.
     - exists []. repeat split; auto using len_le_nil.
   Qed.
@@ -1002,7 +1004,7 @@ Section Sound.
       + unfold rep_exact_ok. destruct l'; [|reflexivity]. cbn [length] in Hlen'. apply orb_true_iff. left. apply N.eqb_eq. lia.
       + apply andb_true_iff. split; [apply N.leb_le; lia|apply len_le_intro; lia].
     - (* repeated message *)
-      destruct Hcs as (l0 & Hl0 & Hlen & Hor & Hall).
+      destruct Hcs as (l0 & Hl0 & Hlen & Hor & Hall & _).
       assert (El : match s with VList l => l | _ => [] end = l0) by (destruct s; cbn [rep_len] in Hl0; try discriminate; congruence).
       rewrite El. pose proof (draw_n_range (min_n o) 10 tp ltac:(unfold min_n; destruct (o_no_empty o); lia)) as Hn.
       destruct (draw_n (min_n o) 10 tp) as [n t1]. cbn [fst] in Hn. rewrite min_n_len in Hn.
@@ -1074,4 +1076,46 @@ Section Sound.
       + eapply Forall_impl; [|exact I2]. intros kv [Ha [Hb Hc]]. split; [exact Ha|]. destruct (snd kv); try discriminate.
         eapply sdeep_mono; [|exact Hc]. lia.
   Qed.
+
+  (* ---- the loop over the fields ------------------------------------------------------------------- *)
+  (* a message-kind field the bool draw leaves alone keeps a slot the range admits *)
+  Lemma cslot_skip r q f fa s : forced o f = false ->
+    cslot o ann (SD r) r q f fa s -> sslot o sch ann (SD r) r (q + 1) f fa s.
+  Proof.
+    intros Hf. unfold cslot, sslot, rg_slot, selem. rewrite Hf. cbn [negb orb].
+    assert (Hmk : msg_kind f = true) by (unfold forced in Hf; destruct (msg_kind f); [reflexivity|discriminate]).
+    unfold msg_kind in Hmk.
+    destruct (f_shape f) as [|packed|oi|kk] eqn:Es; destruct (f_ty f) as [k|tm] eqn:Et; try discriminate.
+    - intros [->|(Hm & Hok & Hs)]; [split; [reflexivity|exact I]|].
+      destruct s; try discriminate. split; [exact Hok|]. eapply sdeep_mono; [|exact Hs]. lia.
+    - intros (l & Hl & Hlen & Hor & Hall & Hex). apply len_le_elim in Hlen.
+      assert (Hmsgs : forallb is_msgv l = true).
+      { apply Forall_forallb. eapply Forall_impl; [|exact Hall]. intros x [Hx _]. exact Hx. }
+      split.
+      + apply andb_true_iff. split.
+        * unfold rep_exact_ok. destruct s; try reflexivity. destruct l0; [|reflexivity].
+          rewrite (Hex eq_refl). reflexivity.
+        * rewrite Hl. destruct (child_ok_container vr o ann r tm) eqn:Eok.
+          -- destruct l; [reflexivity|]. apply andb_true_iff. split; [apply len_le_intro; lia|exact Hmsgs].
+          -- destruct Hor as [->|Hor]; [reflexivity|discriminate].
+      + destruct s; auto. cbn [rep_len] in Hl. injection Hl as ->. destruct (2 <=? r)%nat; auto.
+        eapply Forall_impl; [|exact Hall]. intros x [Hx1 Hx2]. destruct x; try discriminate. exact Hx2.
+    - intros [->|(e & -> & Hm & Hok & Hs)]; [split; [reflexivity|exact I]|].
+      destruct e; try discriminate. split; [exact Hok|]. eapply sdeep_mono; [|exact Hs]. lia.
+    - intros (kvs & Hk & Hlen & Hnd & Hall & _). apply len_le_elim in Hlen. rewrite Hk. split.
+      + repeat (apply andb_true_iff; split); auto. apply len_le_intro. lia.
+      + destruct s; auto. cbn [map_kvs] in Hk. injection Hk as ->. eapply Forall_impl; [|exact Hall]. intros kv [Ha Hb]. split; assumption.
+    - intros (kvs & Hk & Hlen & Hnd & Hall & Htail). apply len_le_elim in Hlen. rewrite Hk. split.
+      + repeat (apply andb_true_iff; split); auto.
+        * apply len_le_intro. lia.
+        * destruct Htail as [->|Ht]; [reflexivity|rewrite Ht; apply orb_true_r].
+        * apply Forall_forallb. eapply Forall_impl; [|exact Hall]. intros kv [_ [Hb _]]. exact Hb.
+      + destruct s; auto. cbn [map_kvs] in Hk. injection Hk as ->. eapply Forall_impl; [|exact Hall].
+        intros kv [Ha [Hb Hc]]. split; [exact Ha|]. destruct (snd kv); try discriminate. eapply sdeep_mono; [|exact Hc]. lia.
+  Qed.
+
+  Lemma member_nil_sslot (rec : srec_t) r p f fa oi : f_shape f = Member oi -> sslot o sch ann rec r p f fa VNil.
+  Proof. intros Es. unfold sslot, rg_slot. rewrite Es. destruct (f_ty f); split; auto. Qed.
+  Lemma member_nil_cslot (rec : srec_t) r q f fa oi : f_shape f = Member oi -> cslot o ann rec r q f fa VNil.
+  Proof. intros Es. unfold cslot. rewrite Es. destruct (f_ty f); left; reflexivity. Qed.
 End Sound.
